@@ -26,6 +26,13 @@ _BAD = re.compile(r'<<"BADCLAUSE", (\d+), "(\w+)">>')
 _DONE = re.compile(r'<<"TRACE-CONSUMED", (\d+), (\d+)>>')
 
 
+def _ints(arr, scale):
+    return [int(round(float(v) * scale)) for v in np.ravel(arr)]
+
+
+RAW_DEFAULT = {"x0": [], "x1": [], "b0": [], "b1": [], "names0": [], "names1": []}
+
+
 def one_call(eng, conf, info, zm, vel_rev, seed, work, tag, multiframe=False):
     from infretis.classes.system import System
     exe = os.path.join(work, f"exe_{tag}")
@@ -76,9 +83,10 @@ def one_call(eng, conf, info, zm, vel_rev, seed, work, tag, multiframe=False):
     _x, v2, _b, _n = engines.read_conf(eng, s2.config[0])
     ev = {
         "engine": tag.split("_")[0], "zero_momentum": bool(zm), "vel_rev": bool(vel_rev),
-        "positions_kept": bool(x1.shape == x0.shape and np.allclose(x1, x0, atol=2e-6, rtol=0)),
-        "box_kept": bool(b0 is None or (b0 is not None and b1 is not None and np.allclose(np.ravel(b1)[:3], np.ravel(b0)[:3], atol=2e-4))),
-        "names_kept": bool(n0 == n1),
+        # raw numbers for TraceVelocity.tla (V_PositionsKept is decided there): positions in micro-units, box lengths in 1e-4 units
+        "x0": _ints(x0, 1e6), "x1": _ints(x1, 1e6),
+        "b0": [] if b0 is None else _ints(np.ravel(b0)[:3], 1e4), "b1": [] if b1 is None else _ints(np.ravel(b1)[:3], 1e4),
+        "names0": [str(a) for a in (n0 or [])], "names1": [str(a) for a in (n1 or [])],
         "source_bytes_same": before == after, "caller_system_same": True,
         "config_is_new_file": os.path.abspath(s.config[0]) != os.path.abspath(src) and os.path.isfile(s.config[0]),
         "config_index_zero": s.config[1] in (0, None),
@@ -206,7 +214,7 @@ def engine_job(args):
             if abs(var - sig2) > 6 * sig2 * math.sqrt(2.0 / n):
                 ok_var = False
             detail.append({"atom": a, "expected_var": sig2, "var": var, "mean": m, "n": n})
-        events.append({"engine": name, "request_ok": True, "masses": "unequal" if hetero else "equal", "zero_momentum": False, "vel_rev": False, "positions_kept": True, "box_kept": True, "names_kept": True,
+        events.append({**RAW_DEFAULT, "engine": name, "request_ok": True, "masses": "unequal" if hetero else "equal", "zero_momentum": False, "vel_rev": False,
                        "source_bytes_same": True, "caller_system_same": True, "config_is_new_file": True, "config_index_zero": True,
                        "momentum_zero": True, "kin_new_matches_written": True, "dek_consistent": True, "same_stream_same_velocities": True,
                        "stream_advanced": True, "foreign": 0, "foreign_who": [], "stat_checked": True, "mean_ok": ok_mean, "var_ok": ok_var,
@@ -239,7 +247,7 @@ def collect(chk, tier, work, pid, clauses, extra_events=None):
     jobs = [(name, het, sorted(cl, key=lambda c: (c["zero_momentum"], c["vel_rev"])), 400 if q else 4000, chk.seed * 17 + 3 + 7 * het)
             for (name, het), cl in sorted(calls.items())]
     results = common.pmap(engine_job, jobs)
-    base = {"zero_momentum": False, "vel_rev": False, "positions_kept": True, "box_kept": True, "names_kept": True, "source_bytes_same": True,
+    base = {**RAW_DEFAULT, "zero_momentum": False, "vel_rev": False, "source_bytes_same": True,
             "caller_system_same": True, "config_is_new_file": True, "config_index_zero": True, "momentum_zero": True, "kin_new_matches_written": True,
             "dek_consistent": True, "same_stream_same_velocities": True, "stream_advanced": True, "foreign": 0, "foreign_who": [], "stat_checked": False,
             "mean_ok": True, "var_ok": True}
